@@ -132,6 +132,14 @@ def strip_instr_plate(v):
     return out
 
 
+def shard_config(shard, tier):
+    """three of eight shards run under other documented settings: solids / enzymes without volume (density inf), other
+    default densities, storage units whose prefixes differ"""
+    return {5: {'default_solid_density': float('inf'), 'default_enzyme_density': float('inf')},
+            6: {'default_solid_density': 2.5, 'default_enzyme_density': 0.4, 'moles_storage_unit': 'nmol'},
+            7: {'default_solid_density': float('inf'), 'volume_storage_unit': 'mL'}}.get(shard % 8)
+
+
 PROFILE = {'weights': {'transfer': 6, 'container': 2, 'plate': 1, 'remove': 1, 'fill_to': 1, 'slice': 1},
            'q_modes': ['frac'] * 8 + ['whole', 'over', 'zero'], 'self_transfer': False, 'initial_slices': 1,
            # lists may name a well twice: whatever that means well by well, nothing may be created or lost
@@ -145,8 +153,15 @@ def run(col):
     mon = Conserve(col)
     core.run_property(col, lambda: benchmachine.make_machine(col, pp, prof, mon),
                       budget(40, 600, col.tier), tag='bench', stateful_step_count=25 if col.tier == 'quick' else 40)
+    # transfers carried out as recipe steps (bake re-binds slices to the current plates): totals over all declared
+    # objects are conserved and wells no step addresses keep their contents
+    from engines import programs
+    programs.run_c01(col, pp)
 
 
 def replay(col, case):
     pp = core.env.bootstrap()
+    if case.get('program'):
+        from engines import programs
+        return programs.replay_c01(col, pp, case)
     benchmachine.replay_history(col, pp, case, Conserve(col))
